@@ -546,16 +546,9 @@ Section Steps.
     destruct (aget r (rooms s)) as [[p0 us0 j0 tk0 mb0 o0 op0]|]; reflexivity.
   Qed.
 
-  Definition own_grant (r : room) (u : name) (m : msg) : bool :=
-    match m with OpGrantedM r' => Nat.eqb r r' && Nat.eqb u me | _ => false end.
-
-  (* the operator question: every notification except the own operator grant (finding F24) *)
-  Lemma operator_step_ok : forall s m r u, own_grant r u m = false ->
+  Lemma operator_step_ok : forall s m r u,
     q_operator (fst (apply_msg me bl s m)) r u = operator_step me r u (q_operator s r u) m.
-  Proof.
-    intros s m r u H. unfold q_operator, q_room, operator_step. room_step m.
-    cbn in H. rewrite !Nat.eqb_refl in H. discriminate.
-  Qed.
+  Proof. intros s m r u. unfold q_operator, q_room, operator_step. room_step m. Qed.
 
   Ltac user_step m :=
     destruct m;
@@ -603,50 +596,34 @@ Proof.
   cbn in Hok. apply andb_prop in Hok. destruct Hok as [H1 H2]. rewrite IH by exact H2. rewrite H by exact H1. reflexivity.
 Qed.
 
-(* Everything the property lists, except the operator set *)
-Definition agrees_but_operators (me : name) (bl : blockmap) (s0 : state) (ms : list msg) (r : room) (u : name) : Prop :=
+(* Everything the property lists *)
+Definition agrees (me : name) (bl : blockmap) (s0 : state) (ms : list msg) (r : room) (u : name) : Prop :=
   let s := fold me bl s0 ms in
   q_private s r = replay (private_step bl r) (q_private s0 r) ms /\
   q_joined s r = replay (joined_step r) (q_joined s0 r) ms /\
   q_inroom s r u = replay (inroom_step r u) (q_inroom s0 r u) ms /\
   q_owner s r = replay (owner_step me r) (q_owner s0 r) ms /\
   q_member s r u = replay (member_step me r u) (q_member s0 r u) ms /\
+  q_operator s r u = replay (operator_step me r u) (q_operator s0 r u) ms /\
   q_ticker s r u = replay (ticker_step r u) (q_ticker s0 r u) ms /\
   q_status s u = replay (status_step u) (q_status s0 u) ms /\
   q_stats s u = replay (stats_step u) (q_stats s0 u) ms /\
   q_privileged s u = replay (privileged_step u) (q_privileged s0 u) ms.
 
-Definition operators_agree (me : name) (bl : blockmap) (s0 : state) (ms : list msg) (r : room) (u : name) : Prop :=
-  q_operator (fold me bl s0 ms) r u = replay (operator_step me r u) (q_operator s0 r u) ms.
-
-Lemma fold_but_operators : forall me bl s0 ms r u, agrees_but_operators me bl s0 ms r u.
+Lemma fold_agrees : forall me bl s0 ms r u, agrees me bl s0 ms r u.
 Proof.
-  intros. unfold agrees_but_operators. cbv zeta.
+  intros. unfold agrees. cbv zeta.
   repeat split.
   - apply (fold_replay _ me bl (fun s => q_private s r)). intros; apply private_step_ok.
   - apply (fold_replay _ me bl (fun s => q_joined s r)). intros; apply joined_step_ok.
   - apply (fold_replay _ me bl (fun s => q_inroom s r u)). intros; apply inroom_step_ok.
   - apply (fold_replay _ me bl (fun s => q_owner s r)). intros; apply owner_step_ok.
   - apply (fold_replay _ me bl (fun s => q_member s r u)). intros; apply member_step_ok.
+  - apply (fold_replay _ me bl (fun s => q_operator s r u)). intros; apply operator_step_ok.
   - apply (fold_replay _ me bl (fun s => q_ticker s r u)). intros; apply ticker_step_ok.
   - apply (fold_replay _ me bl (fun s => q_status s u)). intros; apply status_step_ok.
   - apply (fold_replay _ me bl (fun s => q_stats s u)). intros; apply stats_step_ok.
   - apply (fold_replay _ me bl (fun s => q_privileged s u)). intros; apply privileged_step_ok.
-Qed.
-
-(* operators: every list in which the own operator grant for (r, me) does not occur *)
-Lemma fold_operators_partial : forall me bl s0 ms r u,
-  forallb (fun m => negb (own_grant me r u m)) ms = true -> operators_agree me bl s0 ms r u.
-Proof.
-  intros me bl s0 ms r u H. unfold operators_agree.
-  apply (fold_replay_if _ me bl (fun s => q_operator s r u) (operator_step me r u) (fun m => negb (own_grant me r u m))); [|exact H].
-  intros s m Hm. apply operator_step_ok. now apply negb_true_iff in Hm.
-Qed.
-
-Lemma fold_operators_refuted : exists me bl s0 ms r u, ~ operators_agree me bl s0 ms r u.
-Proof.
-  exists 0, [], (init_state 0), [OperatorsM 0 [0; 1]; OpGrantedM 0], 0, 0.
-  unfold operators_agree. vm_compute. discriminate.
 Qed.
 
 (* what the handlers report *)
@@ -662,82 +639,5 @@ Proof.
   intros me bl s m H. destruct m; cbn in H; try discriminate; cbn [apply_msg]; rewrite H; reflexivity.
 Qed.
 
-(* ---------------------------------------------------------------------------------------- *)
-(* the repaired own-operator-grant handler: the full statement *)
 
-Section Repaired.
-  Variable me : name.
-  Variable bl : blockmap.
-
-  Ltac same_q :=
-    intros; match goal with m : msg |- _ => destruct m end; try reflexivity;
-    cbn [apply_msg apply_msg_repaired fst]; push_rooms; rewrite ?room_obj_upd;
-    repeat (rewrite ?user_obj_upd_room, ?user_obj_touch);
-    try reflexivity;
-    try (match goal with |- context [Nat.eqb ?r ?r0] => destruct (Nat.eqb_spec r r0); [subst r0|] end; try reflexivity); fin.
-
-  Lemma rep_private : forall s m r, q_private (fst (apply_msg_repaired me bl s m)) r = q_private (fst (apply_msg me bl s m)) r.
-  Proof.
-    intros s m r; destruct m; try reflexivity. unfold q_private. cbn [apply_msg apply_msg_repaired fst]. push_rooms.
-    rewrite !aget_upd_rooms. destruct (Nat.eqb r r0); reflexivity.
-  Qed.
-  Lemma rep_joined : forall s m r, q_joined (fst (apply_msg_repaired me bl s m)) r = q_joined (fst (apply_msg me bl s m)) r.
-  Proof. unfold q_joined, q_room. same_q. Qed.
-  Lemma rep_inroom : forall s m r u, q_inroom (fst (apply_msg_repaired me bl s m)) r u = q_inroom (fst (apply_msg me bl s m)) r u.
-  Proof. unfold q_inroom, q_room. same_q. Qed.
-  Lemma rep_owner : forall s m r, q_owner (fst (apply_msg_repaired me bl s m)) r = q_owner (fst (apply_msg me bl s m)) r.
-  Proof. unfold q_owner, q_room. same_q. Qed.
-  Lemma rep_member : forall s m r u, q_member (fst (apply_msg_repaired me bl s m)) r u = q_member (fst (apply_msg me bl s m)) r u.
-  Proof. unfold q_member, q_room. same_q. Qed.
-  Lemma rep_ticker : forall s m r u, q_ticker (fst (apply_msg_repaired me bl s m)) r u = q_ticker (fst (apply_msg me bl s m)) r u.
-  Proof. unfold q_ticker, q_room. same_q. Qed.
-  Lemma rep_status : forall s m u, q_status (fst (apply_msg_repaired me bl s m)) u = q_status (fst (apply_msg me bl s m)) u.
-  Proof. unfold q_status. same_q. Qed.
-  Lemma rep_stats : forall s m u, q_stats (fst (apply_msg_repaired me bl s m)) u = q_stats (fst (apply_msg me bl s m)) u.
-  Proof. unfold q_stats. same_q. Qed.
-  Lemma rep_privileged : forall s m u, q_privileged (fst (apply_msg_repaired me bl s m)) u = q_privileged (fst (apply_msg me bl s m)) u.
-  Proof. unfold q_privileged. same_q. Qed.
-
-  Lemma rep_operator : forall s m r u,
-    q_operator (fst (apply_msg_repaired me bl s m)) r u = operator_step me r u (q_operator s r u) m.
-  Proof.
-    intros s m r u. destruct m; try (apply operator_step_ok; reflexivity).
-    unfold q_operator, q_room, operator_step. cbn [apply_msg_repaired fst]. push_rooms. rewrite ?room_obj_upd.
-    destruct (Nat.eqb_spec r r0); [subst r0|]; cbn [andb]; try reflexivity. fin.
-  Qed.
-
-  Lemma fold_repaired_replay : forall A (q : state -> A) (step : A -> msg -> A),
-    (forall s m, q (fst (apply_msg_repaired me bl s m)) = step (q s) m) ->
-    forall ms s, q (fold_repaired me bl s ms) = replay step (q s) ms.
-  Proof.
-    intros A q step H ms. unfold fold_repaired, replay.
-    induction ms as [|m ms IH]; intros s; cbn [fold_left]; [reflexivity|]. rewrite IH, H. reflexivity.
-  Qed.
-
-  Lemma fold_if_repaired : forall s0 ms r u,
-    let s := fold_repaired me bl s0 ms in
-    q_private s r = replay (private_step bl r) (q_private s0 r) ms /\
-    q_joined s r = replay (joined_step r) (q_joined s0 r) ms /\
-    q_inroom s r u = replay (inroom_step r u) (q_inroom s0 r u) ms /\
-    q_owner s r = replay (owner_step me r) (q_owner s0 r) ms /\
-    q_member s r u = replay (member_step me r u) (q_member s0 r u) ms /\
-    q_operator s r u = replay (operator_step me r u) (q_operator s0 r u) ms /\
-    q_ticker s r u = replay (ticker_step r u) (q_ticker s0 r u) ms /\
-    q_status s u = replay (status_step u) (q_status s0 u) ms /\
-    q_stats s u = replay (stats_step u) (q_stats s0 u) ms /\
-    q_privileged s u = replay (privileged_step u) (q_privileged s0 u) ms.
-  Proof.
-    intros. subst s. repeat split.
-    - apply (fold_repaired_replay _ (fun s => q_private s r)). intros. rewrite rep_private. apply private_step_ok.
-    - apply (fold_repaired_replay _ (fun s => q_joined s r)). intros. rewrite rep_joined. apply joined_step_ok.
-    - apply (fold_repaired_replay _ (fun s => q_inroom s r u)). intros. rewrite rep_inroom. apply inroom_step_ok.
-    - apply (fold_repaired_replay _ (fun s => q_owner s r)). intros. rewrite rep_owner. apply owner_step_ok.
-    - apply (fold_repaired_replay _ (fun s => q_member s r u)). intros. rewrite rep_member. apply member_step_ok.
-    - apply (fold_repaired_replay _ (fun s => q_operator s r u)). intros. apply rep_operator.
-    - apply (fold_repaired_replay _ (fun s => q_ticker s r u)). intros. rewrite rep_ticker. apply ticker_step_ok.
-    - apply (fold_repaired_replay _ (fun s => q_status s u)). intros. rewrite rep_status. apply status_step_ok.
-    - apply (fold_repaired_replay _ (fun s => q_stats s u)). intros. rewrite rep_stats. apply stats_step_ok.
-    - apply (fold_repaired_replay _ (fun s => q_privileged s u)). intros. rewrite rep_privileged. apply privileged_step_ok.
-  Qed.
-End Repaired.
 
